@@ -16,13 +16,13 @@ HAS = {"Model": ["packages", "classes"], "Package": ["packages", "classes"],
        "Class": ["classes", "extends", "type"]}
 
 _GRAMMAR = r'''
-Model:   ('probec' pc=[Class:QName%(R)s])? ('probep' pp=[Package:QName%(R)s])?
+Model:   ('probec' pc=[Class:QName%(RC)s])? ('probep' pp=[Package:QName%(RP)s])?
          packages*=Package classes*=Class;
 Package: 'package' name=ID uid=UID
-         ('probec' pc=[Class:QName%(R)s])? ('probep' pp=[Package:QName%(R)s])?
+         ('probec' pc=[Class:QName%(RC)s])? ('probep' pp=[Package:QName%(RP)s])?
          '{' packages*=Package classes*=Class '}';
 Class:   'class' name=ID uid=UID ('extends' extends+=[Class:UID][','])? ('type' type=[Class:UID])?
-         ('probec' pc=[Class:QName%(R)s])? ('probep' pp=[Package:QName%(R)s])?
+         ('probec' pc=[Class:QName%(RC)s])? ('probep' pp=[Package:QName%(RP)s])?
          ('{' classes*=Class '}')?;
 UID:     /#\d+/;
 QName:   ID('.'ID)*;
@@ -195,25 +195,34 @@ class Real:
         from textx import metamodel_from_str
         self._mfs = metamodel_from_str
         self.base = self._mm("", None)
+        self._prov = None
+        self._prov_key = None
         self._mms = {}
         self._models = {}
         self._trees = {}
 
-    def _mm(self, rrel_in_grammar, provider_text):
-        mm = self._mfs(_GRAMMAR % dict(R=("|" + rrel_in_grammar) if rrel_in_grammar else ""))
-        sp = {"Class.extends": _by_uid, "Class.type": _by_uid}
-        if provider_text:
-            sp["*.pc"] = provider_text
-            sp["*.pp"] = provider_text
-        mm.register_scope_providers(sp)
+    def _mm(self, rrel_in_grammar, attr):
+        r = ("|" + rrel_in_grammar) if rrel_in_grammar else ""
+        mm = self._mfs(_GRAMMAR % dict(RC=r if attr == "pc" else "", RP=r if attr == "pp" else ""))
+        mm.register_scope_providers({"Class.extends": _by_uid, "Class.type": _by_uid})
         return mm
 
-    def mm(self, way, text):
-        k = (way, text)
+    def mm(self, way, text, attr):
+        """way 'grammar': a metamodel whose grammar carries the RREL on the probing attribute;
+        way 'provider': the RREL-free metamodel with the RREL string registered for that attribute."""
+        if way == "provider":
+            if self._prov is None:
+                self._prov = self._mm("", None)
+            if self._prov_key != (text, attr):
+                self._prov.register_scope_providers({"Class.extends": _by_uid, "Class.type": _by_uid,
+                                                     "*." + attr: text})
+                self._prov_key = (text, attr)
+            return self._prov
+        k = (text, attr)
         if k not in self._mms:
             if len(self._mms) > 400:
                 self._mms.clear()
-            self._mms[k] = self._mm(text, None) if way == "grammar" else self._mm("", text)
+            self._mms[k] = self._mm(text, attr)
         return self._mms[k]
 
     def parse_check(self, expr, flags):
@@ -270,7 +279,7 @@ class Real:
         """way 2 ('grammar'): RREL written in the grammar; way 3 ('provider'): RREL string registered."""
         from textx.exceptions import TextXSemanticError
         attr = "pc" if cls == "Class" else "pp"
-        mm = self.mm(way, expr_text(expr, flags))
+        mm = self.mm(way, expr_text(expr, flags), attr)
         text = model_text(objs, (start, attr, ".".join(names)))
         try:
             m = mm.model_from_str(text)
